@@ -176,7 +176,9 @@ func runC02(r *vt.Run, t vt.TB, s spec) {
 	compared := 0
 	for _, tc := range tables {
 		name := tc.ts.Def.Ident.Name
-		known := e1.IntegerArgsPK(tc.ts.Def)
+		if e1.IntegerArgsPK(tc.ts.Def) {
+			r.Count("shape:integer-with-type-arguments-as-primary-key", 1)
+		}
 		for _, six := range tc.sch.Indexes {
 			ii := findIndex(tc.cat, six.Index)
 			if ii == nil {
@@ -223,9 +225,6 @@ func runC02(r *vt.Run, t vt.TB, s spec) {
 				nontrivial = true
 			}
 			fail := func(sig, format string, args ...interface{}) {
-				if known {
-					sig = e1.KnownIntegerArgs
-				}
 				r.Violation(t, s, sig, "table %q (%s) index %q (%v): %s", name, tc.ts.Def.SQL(), six.Index, orderBy, fmt.Sprintf(format, args...))
 			}
 			if err != nil {
@@ -325,7 +324,9 @@ func runC03(r *vt.Run, t vt.TB, s spec) {
 	searches := 0
 	for _, tc := range tables {
 		name := tc.ts.Def.Ident.Name
-		known := e1.IntegerArgsPK(tc.ts.Def)
+		if e1.IntegerArgsPK(tc.ts.Def) {
+			r.Count("shape:integer-with-type-arguments-as-primary-key", 1)
+		}
 		kind := "rowid"
 		if tc.cat.WithoutRowid {
 			kind = "without-rowid"
@@ -447,9 +448,6 @@ func runC03(r *vt.Run, t vt.TB, s spec) {
 				}
 				classes = append(classes, cls, fmt.Sprintf("search:prefix=%d", p), fmt.Sprintf("search:hits<=%d", bucket(len(want))))
 				fail := func(sig, format string, args ...interface{}) {
-					if known {
-						sig = e1.KnownIntegerArgs
-					}
 					r.Violation(t, s, sig, "table %q (%s) %s key %v (columns %v, collations %v): %s", name, tc.ts.Def.SQL(), tg.label, val.Row(key), keyExprs[:p], keyColl[:p], fmt.Sprintf(format, args...))
 				}
 				if err != nil {
